@@ -291,7 +291,7 @@ PROPS = {
         rule="prefix lengths v4 in {0,1,8,16,24,31,32}, v6 in {0,1,48,56,63,64}; table sizes {1,7,1024,65537}; slip 0/1; second "
              "request derived from the first: same or one bit flipped at/inside/outside the prefix boundary, IPv4 vs mapped "
              "IPv6, case variants, two names under one wildcard / under different wildcards, NODATA vs answer, NXDOMAIN vs "
-             "REFUSED vs FORMERR, TCP, NOTIFY/UPDATE/STATUS opcodes. distinct = (relation, limited, category, prefixes, wildcard)",
+             "REFUSED vs FORMERR, TCP, NOTIFY/UPDATE/STATUS opcodes. distinct = (relation, limited, category, prefixes, wildcard); an eighth of the requests carry an OPT with EDNS version 1 (BADVERS, whose low four RCODE bits equal NOERROR: it belongs to the per-prefix stream of all other RCODEs)",
         assumptions=COMMON_ASSUMPTIONS + ["pairs taking >= 0.5 s of real time are discarded", "a 2^-32 QNAME-hash collision would be a false alarm"],
         quick=plans(dict(build="dbg", nshards=16)),
         thorough=plans(dict(build="dbg", nshards=16), dict(build="rel", nshards=16)),
